@@ -176,7 +176,10 @@ func c02Term(rng *rand.Rand, i, n int, ns string) corev1.PodAffinityTerm {
 	case x < 19:
 		t.NamespaceSelector = &metav1.LabelSelector{}
 	default:
-		t.Namespaces = []string{"ns-c"}
+		// both fields: the term applies to the UNION of the listed and the selected namespaces. The listed one holds
+		// pods and is (default: always, ns-b: half of the worlds) not selected by the selector, so an implementation
+		// that lets the selector replace the list loses it (seeded change C02-e).
+		t.Namespaces = []string{otherNS, "ns-c"}
 		t.NamespaceSelector = &metav1.LabelSelector{MatchLabels: map[string]string{LabelNSEnv: "dev"}}
 	}
 	return t
